@@ -4,7 +4,7 @@ import itertools
 from .. import env
 from ..core import Result, pmap, Violation
 from .. import tunerx, scheds, monitors
-from ..backends import ScriptedBackend, ScriptSpec
+from ..backends import ScriptedBackend, ScriptSpec, make_scripted_local_backend
 from ..dscript import DecisionScriptScheduler
 from .c01 import table
 
@@ -26,8 +26,9 @@ def build_factory(cfg):
         sign = 1.0 if cfg.get("mode", "min") == "min" else -1.0
         R_job = R + 2 if cfg["kind"] == "pbt" else R
         spec = ScriptSpec(table(8, R_job, sign), R_job, max_resource_attr=info["mra"], checkpointing=cfg.get("ckpt", True))
-        backend = ScriptedBackend(chooser, spec, cfg["W"], profile=cfg["profile"], fault_budget=cfg.get("F", 0),
-                                  faults=("crash",), log=log, late_results=cfg.get("late", True))
+        make = make_scripted_local_backend if cfg.get("files") else ScriptedBackend
+        backend = make(chooser, spec, cfg["W"], profile=cfg["profile"], fault_budget=cfg.get("F", 0),
+                       faults=("crash",), log=log, late_results=cfg.get("late", True))
         rec = tunerx.make_recorder_callback(log, loop_cap=cfg.get("loop_cap", 150))
         store = StoreResultsCallback()
         tuner = Tuner(trial_backend=backend, scheduler=sched, stop_criterion=StoppingCriterion(**cfg["stop"]),
@@ -39,8 +40,8 @@ def build_factory(cfg):
 
 def ctx_of(cfg):
     if cfg["kind"] == "dscript":
-        return "dscript"
-    return f"{cfg['kind']}/{'ckpt' if cfg.get('ckpt', True) else 'scratch'}/{'mra' if cfg.get('mra', True) else 'nomra'}"
+        return "dscript" + ("/files" if cfg.get("files") else "")
+    return f"{cfg['kind']}/{'ckpt' if cfg.get('ckpt', True) else 'scratch'}/{'mra' if cfg.get('mra', True) else 'nomra'}" + ("/files" if cfg.get("files") else "")
 
 
 def label(cfg):
@@ -103,6 +104,10 @@ def configs(tier, seed):
                     out.append(dict(kind=kind, W=2, R=4, mode="min" if pi % 2 else "max", seed=seed, profile=prof, ckpt=ckpt, mra=mra,
                                     k=1 if tier == "quick" else 2, stop={"max_num_trials_started": 4}, wait=(pi % 2 == 0), F=pi % 2,
                                     max_exec=300 if tier == "quick" else 4000))
+    # (3) the same through the real file layer of LocalBackend (std.out + retrieve, marker files, shutil checkpoints)
+    n = len(out)
+    for i in range(0, n, 7 if tier == "quick" else 3):
+        out.append(dict(out[i], files=True, max_exec=120 if tier == "quick" else 1500))
     return out
 
 
